@@ -551,7 +551,13 @@ func (d *DBFT[H]) onChangeView(msg ConsensusPayload[H]) {
 	)
 
 	d.ChangeViewPayloads[msg.ValidatorIndex()] = msg
-	d.checkChangeView(p.NewViewNumber())
+	// A request for some view supports every lower view as well, so it can
+	// complete the quorum for any view between ours and the requested one.
+	// Check them all starting from the highest (a successful change ends
+	// the loop since our view is not lower than v any more).
+	for v := p.NewViewNumber(); v > d.ViewNumber; v-- {
+		d.checkChangeView(v)
+	}
 }
 
 func (d *DBFT[H]) onPreCommit(msg ConsensusPayload[H]) {
